@@ -49,6 +49,9 @@ def program(rng, with_assign):
         stmts.append("e2 := e1? | :red(k) => k | * => 0u64.")
         if rng.random() < 0.5:
             stmts.append("e3 := :green")
+        # the resolution becomes observable where the value meets a declared enum kind
+        stmts.append("pickred(c<light>) => <u64>\n  ├ :red(n) => n\n  └ * => 0u64.")
+        stmts.append("e4 := pickred(:red(%du64))" % rng.randint(1, 9))
     for i in range(n):
         r = rng.random()
         name = "v%d" % i
